@@ -3,7 +3,7 @@ import ast
 import z3
 from . import ty
 from .ty import Int, Bool, NoneT, Str, Opt, Seq, Tup, List, Deque, Dict, Set, Obj, Opaque, Fun
-from .core import (Unknown, Untranslatable, ContractError, Val, PyConst, PyTuple, BoundMethod, FuncRef, Closure, ProviderCall,
+from .core import (MemView, Unknown, Untranslatable, ContractError, Val, PyConst, PyTuple, BoundMethod, FuncRef, Closure, ProviderCall,
                    View, State, Outcome, fresh, none_val, int_val, bool_val, type_heap_keys)
 
 _parse_cache = {}
@@ -287,6 +287,9 @@ def apply(self, callee, args, kwargs, st, node):
         if tag == "builtin":
             yield from self.call_builtin(callee.v[1], args, kwargs, st, node)
             return
+        if tag == "dotted":
+            yield from self.call_builtin(callee.v[1], args, kwargs, st, node)
+            return
         if tag == "exc":
             yield PyConst(("excinst", callee.v[1])), st
             return
@@ -568,6 +571,18 @@ def call_builtin(self, name, args, kwargs, st, node):
         self.list_extend(st, lst, view)
         yield lst, st
         return
+    if name in ("set", "frozenset") and a and isinstance(a[0], MemView):
+        mv = a[0]
+        sset = self.alloc(st, Set(mv.elt_t))
+        k = fresh("k", mv.elt_t.sort())
+        d = fresh("dom", self.dom(st, sset).sort())
+        st.assume(z3.ForAll([k], z3.Select(d, k) == mv.pred(k)))
+        self.set_dom(st, sset, d)
+        c = fresh("card", z3.IntSort())
+        st.assume(c >= 0)
+        self.set_card(st, sset, c)
+        yield sset, st
+        return
     if name in ("set", "frozenset"):
         want = getattr(self, "expect_type", None)
         if not a:
@@ -660,8 +675,38 @@ def call_builtin(self, name, args, kwargs, st, node):
         vs = [self.view_of(x, st) for x in a]
         yield self.chain_views(vs), st
         return
-    if name == "itertools.chain.from_iterable":
-        raise Untranslatable("chain.from_iterable")
+    if name in ("itertools.chain.from_iterable", "chain.from_iterable"):
+        outer = self.view_of(a[0], st)
+        i, j = fresh("i", z3.IntSort()), fresh("j", z3.IntSort())
+        inner = self.view_of(self.iter_value(outer.at(i), st), st)
+        et = inner.elt_t
+
+        def pred(x, outer=outer):
+            ii, jj = fresh("i", z3.IntSort()), fresh("j", z3.IntSort())
+            iv = self.view_of(self.iter_value(outer.at(ii), st), st)
+            return z3.Exists([ii, jj], z3.And(0 <= ii, ii < outer.length, 0 <= jj, jj < iv.length,
+                                              self.coerce(iv.at(jj), et, st).z == x))
+        yield MemView(pred, et), st
+        return
+    if name in ("itertools.filterfalse", "filterfalse", "filter"):
+        fn, src = args[0], a[1]
+        if not isinstance(src, MemView):
+            v = self.view_of(src, st)
+            et0 = v.elt_t
+
+            def p0(x, v=v):
+                ii = fresh("i", z3.IntSort())
+                return z3.Exists([ii], z3.And(0 <= ii, ii < v.length, self.coerce(v.at(ii), et0, st).z == x))
+            src = MemView(p0, et0)
+
+        def keep(x, src=src):
+            outs = list(self.apply(fn, [Val(src.elt_t, x)], {}, st, node))
+            if len(outs) != 1:
+                raise Untranslatable("filter predicate forks")
+            t = self.truth(outs[0][0], st)
+            return z3.And(src.pred(x), z3.Not(t) if "false" in name else t)
+        yield MemView(keep, src.elt_t), st
+        return
     if self.lenient:
         yield self.unknown_call(args, kwargs, st, f"builtin {name}"), st
         return
@@ -857,6 +902,16 @@ def call_method(self, recv, name, args, kwargs, st, node):
                 self.del_key(st, recv, Val(t.k, x))
                 yield self.valid_ref(st, Val(t.k, x)), st
                 return
+            if name in ("issubset", "issuperset") and isinstance(a[0], tuple) and a[0] and a[0][0] == "setlit":
+                items = [self.coerce(x, t.k, st).z for x in a[0][1].items]
+                k = fresh("k", t.k.sort())
+                d = self.dom(st, recv)
+                if name == "issubset":
+                    yield bool_val(z3.ForAll([k], z3.Implies(z3.Select(d, k), z3.Or(*[k == x for x in items]) if items
+                                                             else z3.BoolVal(False)))), st
+                else:
+                    yield bool_val(z3.And(*[z3.Select(d, x) for x in items]) if items else z3.BoolVal(True)), st
+                return
             if name in ("issubset", "issuperset"):
                 other = self.iter_value(a[0], st)
                 k = fresh("k", t.k.sort())
@@ -966,8 +1021,9 @@ def call_method(self, recv, name, args, kwargs, st, node):
                 self.set_card(st, recv, z3.IntVal(0))
                 yield none_val(), st
                 return
-    if isinstance(recv, PyConst) and isinstance(recv.v, tuple) and recv.v[0] == "module":
-        yield from self.call_builtin(f"{recv.v[1]}.{name}", args, kwargs, st, node)
+    if isinstance(recv, PyConst) and isinstance(recv.v, tuple) and recv.v[0] in ("module", "dotted", "builtin"):
+        base = recv.v[1] if recv.v[0] != "module" else recv.v[1].split(".")[-1]
+        yield from self.call_builtin(f"{base}.{name}", args, kwargs, st, node)
         return
     if isinstance(recv, Unknown) or (self.lenient and not (isinstance(recv, Val) and isinstance(recv.t, Obj))):
         if isinstance(recv, Val) and recv.t.mutable:
@@ -1371,6 +1427,7 @@ def call_inline(self, c, args, kwargs, st, node):
     if self.inline_depth > 6:
         raise Untranslatable("inlining too deep")
     env = self.bind_params(c, fnode, args, kwargs, st)
+    self.inlined_nodes[c.qual] = fnode
     saved = (self.module, self.cur_fn, self.loop_ctx if hasattr(self, "loop_ctx") else None, self.cur_contract,
              self.cur_fnode)
     self.module, self.cur_fn, self.cur_contract, self.cur_fnode = mod, c.qual, c, fnode
